@@ -230,7 +230,7 @@ EXPORT char *_stpncpy_s_chk(char *restrict dest, rsize_t dmax,
         overlap_bumper = dest;
 
         while (dmax > 0) {
-            if (unlikely(src == overlap_bumper)) {
+            if (unlikely(src == overlap_bumper && slen > 0)) {
                 handle_error(orig_dest, orig_dmax,
                              "stpncpy_s: "
                              "overlapping objects",
